@@ -581,6 +581,11 @@ pub fn struct_set() -> Vec<Program> {
         ext: vec![0],
         root0: None,
     });
+    // the first program again with operations that shrink the cache of the creator function
+    // (two creators, capacity 1: one creator's result is evicted at the next revision or trigger)
+    let mut lru = v[0].clone();
+    lru.name = "mk-a-lru".into();
+    v.push(lru);
     v
 }
 
@@ -588,6 +593,11 @@ pub fn struct_alphabet(p: &Program) -> Vec<Op> {
     let mut a = vec![Op::Set(0, 0), Op::Set(0, 1), Op::Set(0, 2), Op::Set(1, 0), Op::Set(1, 1)];
     for n in 0..p.nodes.len() as u8 {
         a.push(Op::Q(n));
+    }
+    if p.name.ends_with("-lru") {
+        a.push(Op::MkLruCap(1));
+        a.push(Op::LruTrig);
+        return a;
     }
     a.push(Op::QFld(0, 0, 1));
     a.push(Op::QOnTs(0, 1, 0));
@@ -708,6 +718,33 @@ pub fn specify_set() -> Vec<Program> {
             ),
             NodeDef::new(Kind::Ev, Ex::add(Ex::OnTs(0, 0, 2), Ex::OnTs(0, 1, 2))),
             NodeDef::new(Kind::Ev, Ex::OnTs(0, 2, 2)),
+        ],
+        ext: vec![0],
+        root0: None,
+    });
+    // the struct is created before anything changeable is read (never-change durability), the
+    // decision to specify depends on a LOW input read afterwards
+    v.push(Program {
+        name: "spec-never".into(),
+        cells: vec![(0, Dur::Low), (1, Dur::Low)],
+        nodes: vec![
+            NodeDef::new(Kind::Mk, Ex::Mk(vec![ent_post(k(1), k(1), k(2), k(5), vec![Post::Spec { cond: cell(0), val: k(0x27) }])])).dur(Dur::Never),
+            NodeDef::new(Kind::Ev, Ex::OnTs(0, 0, 2)),
+            NodeDef::new(Kind::Ev, Ex::add(cell(1), k(1))),
+        ],
+        ext: vec![0],
+        root0: None,
+    });
+    // durabilities: whether the creator specifies depends on a HIGH input alone or, after that
+    // input changed, on a LOW input read before specifying (the specified value stays the same)
+    v.push(Program {
+        name: "spec-dur".into(),
+        cells: vec![(1, Dur::Low), (0, Dur::High)],
+        nodes: vec![
+            NodeDef::new(Kind::Mk, Ex::Mk(vec![ent_post(k(1), k(1), k(2), k(5), vec![Post::Spec { cond: Ex::ifc(1, cell(0), k(1)), val: k(0x27) }])]))
+                .dur(Dur::High),
+            NodeDef::new(Kind::Ev, Ex::OnTs(0, 0, 2)).dur(Dur::High),
+            NodeDef::new(Kind::Ev, Ex::add(cell(1), k(1))).dur(Dur::High),
         ],
         ext: vec![0],
         root0: None,
